@@ -7,6 +7,7 @@ import Sif.Generated.DispConsts
 import Sif.Generated.MintCallers
 import Sif.Generated.DispHooks
 import Sif.Generated.AccuReset
+import Sif.Generated.BlockShare
 /-
   C20 — Policy-driven issuance is bounded.  Property theorems only.
 
@@ -325,6 +326,37 @@ example : (runBlocks exCfg (fun _ => false) 4 exState).toOption.map (fun s => (s
   the pool split, of the transfers and of the burn (`Env`). -/
 
 open Sif.Rewards
+
+/-- `block_share_le`: the per-block share computed by `CalcBlockDistribution` (integer division of
+    the allocation by the uint64 length `end − start + 1`, wrap included), times that length, never
+    exceeds the allocation — for every period, no envelope. -/
+theorem block_share_le (p : Period) (c : Nat) (h : calcBlockDistribution p = .ok c) : c * p.len ≤ p.alloc := by
+  unfold calcBlockDistribution Uint.quo at h
+  split at h
+  · cases h
+  · cases h; exact Nat.div_mul_le_self _ _
+
+/-- the share the judge uses (`Spec.C20.share`, the mathematical ⌊allocation / (end − start + 1)⌋) is
+    the model's share for every period that `ValidateBasic` accepts (start ≤ end ≤ 2^64−1 and the
+    uint64 length not wrapping to 0), however long — in particular for lengths beyond 2·10^18 -/
+theorem block_share_eq_judge (p : Period) (h1 : p.start ≤ p.stop) (h2 : p.stop < 2 ^ 64)
+    (h3 : p.stop - p.start + 1 < 2 ^ 64) : calcBlockDistribution p = .ok (share p) ∧ share p * (p.stop - p.start + 1) ≤ p.alloc := by
+  have hl := len_nowrap h1 h2 h3
+  refine ⟨?_, Nat.div_mul_le_self _ _⟩
+  unfold calcBlockDistribution Uint.quo share
+  rw [hl]
+  have : ¬ (p.stop - p.start + 1 = 0) := by omega
+  rw [if_neg this]
+
+/-- the body of `CalcBlockDistribution` in the source is that single integer division (regenerated
+    fact; any sdk.Dec arithmetic in it — Dec.Quo rounds half-even at the 18th decimal before a
+    truncation, which lifts ⌊a/len⌋ by one for len > 2·10^18 — gives "unknown" and fails here) -/
+theorem block_share_is_integer_division :
+    Sif.Generated.BlockShare.shape = "uint.quoUint64(allocation, end-start+1)" ∧
+    Sif.Generated.BlockShare.usesDec = false := by decide
+
+/- non-vacuity: a period of 4·10^18 blocks whose allocation is one unit short of 50 per block -/
+example : (calcBlockDistribution ⟨10, 10 + 4000000000000000000 - 1, 50 * 4000000000000000000 - 1, 1⟩).toOption = some 49 := by decide
 
 /-- the running clamp of `CollectPoolRewardTuples`: never more than the block distribution -/
 theorem rewards_collect_le (bd : Nat) (raws : List Nat) : collect bd raws ≤ bd := collect_le bd raws
